@@ -842,8 +842,9 @@ class Array(Tuple):
     @classmethod
     def _holds_node(cls, values: Any) -> bool:
         # (nested lists and tuples are searched as well: [[1, column], [2, 3]])
+        # an enum member is written inline wherever it stands: it cannot go into the parameter list inside an array either
         return any(
-            isinstance(value, Node)
+            isinstance(value, (Node, Enum))
             or (isinstance(value, (list, tuple)) and cls._holds_node(value))
             for value in values
         )
